@@ -310,6 +310,18 @@ class VC:
             CTX.add(c.z, "lemma")
         return c
 
+    def gibbs(self, a, b):
+        """assumed axiom instance about the uninterpreted log (A4; consequence of log(xy)=log x+log y and
+        t-1 >= log t with equality iff t=1, at t=a/b):  a,b>0 => b(log a - log b) <= a - b, equality iff a == b"""
+        if not self.symbolic:
+            return
+        a, b = SymReal.lift(a), SymReal.lift(b)
+        la, lb_ = a.log(), b.log()
+        lhs = b.z * la.z - b.z * lb_.z
+        rhs = a.z - b.z
+        self.trusted("log axiom instance (Gibbs): a,b>0 => b(log a - log b) <= a-b with equality iff a=b")
+        CTX.axiom(("gibbs", a.z.get_id(), b.z.get_id()), z3.Implies(z3.And(a.z > 0, b.z > 0), z3.And(lhs <= rhs, (lhs == rhs) == (a.z == b.z))))
+
     def canary(self, name, cond):
         """a deliberately wrong claim: must be REFUTED (vacuity guard)"""
         c = self._b(cond)
@@ -343,7 +355,7 @@ class VC:
         # c.z already encodes IEEE semantics of comparisons with undefined operands (False), so an
         # equality goal contains its own definedness conjunct; connectives stay lazy (A => B).
         goal = c.z
-        if kind != "canary" and z3.is_and(goal):
+        if kind != "canary" and (z3.is_and(goal) or (z3.is_not(goal) and z3.is_or(goal.children()[0]))):
             # prove conjuncts separately (cheap ones vanish; the failing one is named precisely)
             parts = _flatten_and(goal)
             if len(parts) > 1:
@@ -424,6 +436,19 @@ class VC:
         if cs is True:
             return "discharged", "case-split+polyid", None, None
 
+        # 0c. focused proof: only the hypotheses that talk about the goal's own symbols (a subset of PC is sound)
+        try:
+            gs = _free_consts(goal)
+            sub = [c for c in pc if _consts_cached(c) <= gs]
+            if 0 < len(sub) < len(pc):
+                sf = z3.Solver()
+                sf.set("timeout", 3000)
+                sf.add(*sub)
+                sf.add(z3.Not(goal))
+                if sf.check() == z3.unsat:
+                    return "discharged", "z3-focused", None, None
+        except z3.Z3Exception:
+            pass
         # 1. incremental check on the path solver (short budget first)
         s = CTX.solver
         s.push()
@@ -679,9 +704,44 @@ class VC:
 
 
 class _Purifier:
+    """abstraction of (PC, goal) into linear real arithmetic: every real term is put into polynomial
+    normal form over its atoms (pyvc.polyid) and every non-constant MONOMIAL becomes an opaque LRA variable,
+    so polynomial identities hold by construction; terms with non-trivial denominators, or too large to
+    expand, are abstracted structurally (one opaque variable per distinct term)."""
+
     def __init__(self):
+        from . import polyid
+
         self.memo = {}
         self.fresh = {}
+        self.N = polyid.Normalizer()
+        self.mono_vars = {}
+        self._polyid = polyid
+
+    def _poly(self, t):
+        try:
+            n, d = self.N.rat(t)
+        except (self._polyid.TooBig, RecursionError):
+            return None
+        if d != {(): 1}:
+            return None
+        if len(n) > 400:
+            return None
+        terms = []
+        for mono, coef in n.items():
+            c = z3.Q(coef.numerator, coef.denominator)
+            if mono == ():
+                terms.append(c)
+            else:
+                if len(mono) == 1 and mono[0][1] == 1 and mono[0][0][0] == "a":
+                    at = self.N.atoms[mono[0][0]]
+                    if z3.is_const(at) and at.decl().kind() == z3.Z3_OP_UNINTERPRETED:
+                        terms.append(c * at)
+                        continue
+                if mono not in self.mono_vars:
+                    self.mono_vars[mono] = z3.Real(f"mono!{len(self.mono_vars)}")
+                terms.append(c * self.mono_vars[mono])
+        return z3.Sum(terms) if terms else z3.RealVal(0)
 
     def _opaque(self, t):
         k = z3.simplify(t).get_id()
@@ -696,7 +756,12 @@ class _Purifier:
         r = None
         if z3.is_rational_value(t) or (z3.is_const(t) and t.decl().kind() == z3.Z3_OP_UNINTERPRETED):
             r = t
-        elif z3.is_app(t):
+        else:
+            r = self._poly(t)
+        if r is not None:
+            self.memo[key] = r
+            return r
+        if z3.is_app(t):
             k = t.decl().kind()
             ch = t.children()
             if k == z3.Z3_OP_ADD:
@@ -832,11 +897,16 @@ def _first_ite_cond(t):
 
 
 def _flatten_and(t):
+    """conjuncts of t (And flattened, Not(Or(..)) pushed inward)"""
     out, stack = [], [t]
     while stack:
         e = stack.pop()
         if z3.is_and(e):
             stack.extend(reversed(e.children()))
+        elif z3.is_not(e) and z3.is_or(e.children()[0]):
+            stack.extend(reversed([z3.Not(c) for c in e.children()[0].children()]))
+        elif z3.is_not(e) and z3.is_not(e.children()[0]):
+            stack.append(e.children()[0].children()[0])
         else:
             out.append(e)
     return out
@@ -847,7 +917,15 @@ def _sos_nonneg(t):
     if not z3.is_app(t):
         return False
     k = t.decl().kind()
-    if k == z3.Z3_OP_GE:
+    if k == z3.Z3_OP_NOT:
+        u = t.children()[0]
+        if z3.is_app(u) and u.decl().kind() == z3.Z3_OP_LT:      # not (a < 0)
+            a, b = u.children()
+        elif z3.is_app(u) and u.decl().kind() == z3.Z3_OP_GT:    # not (0 > a)
+            b, a = u.children()
+        else:
+            return False
+    elif k == z3.Z3_OP_GE:
         a, b = t.children()
     elif k == z3.Z3_OP_LE:
         b, a = t.children()
@@ -880,6 +958,19 @@ def _cheaply_valid(t):
     if z3.is_eq(t) and t.children()[0].sort_kind() == z3.Z3_REAL_SORT:
         return polyid.is_identity(t)
     return False
+
+
+_CONSTS_CACHE = {}
+
+
+def _consts_cached(t):
+    k = t.get_id()
+    r = _CONSTS_CACHE.get(k)
+    if r is None:
+        if len(_CONSTS_CACHE) > 200000:
+            _CONSTS_CACHE.clear()
+        r = _CONSTS_CACHE[k] = frozenset(_free_consts(t))
+    return r
 
 
 def _free_consts(t):
